@@ -21,7 +21,8 @@ Part 2 (ranges of canonical 4 KiB pages, `rs ≤ re`; `Proofs/CleanUpRange.lean`
 tables whose address span overlaps the range, leaves tables that do not overlap it untouched, leaves no
 empty table wholly inside the range, and a second run frees nothing.
 -/
-import X86Model.Proofs.CleanUpTree
+import X86Model.Proofs.CleanUpRange
+import X86Model.Properties.C09
 
 namespace X86.C10
 open X86 X86.Spec
@@ -107,5 +108,168 @@ theorem clean_up_log_shape (k : Kind) (rIdx : Nat) (s : St) (p4 : Word) (rs re :
 /-- `clean_up()` is `clean_up_addr_range` over the whole address space. -/
 theorem clean_up_all_eq (k : Kind) (rIdx : Nat) (s : St) (p4 : Word) :
     cleanUpAll k rIdx s p4 = cleanUpRange k rIdx s p4 0 0xfffffffffffff000 := rfl
+
+/-! ### Part 2: ranges of pages
+
+`rs`, `re` are start addresses of 4 KiB pages (`PageAddr`: canonical, page aligned) with `rs ≤ re`;
+spans are in page numbers of rank space (`pn`), so a range spanning the canonical gap or ending at the
+last page is an ordinary interval. `Overlaps q lo hi`: the address span of the table at index path `q`
+intersects `lo..hi`. -/
+
+/-- **Clean-up of a range of pages never panics** (no `unwrap` on `None` in the gap jump, no
+overflow in the per-entry sub-range, for every hierarchy and every range — including ranges that
+span the canonical gap or end at the last page). -/
+theorem clean_up_range_never_panics (k : Kind) (rIdx : Nat) (s : St) (p4 : Word) (rs re : Nat)
+    (hinv : Inv s.mem p4) (hs : PageAddr rs) (he : PageAddr re) (hle : rs ≤ re) :
+    (cleanUpRange k rIdx s p4 rs re).1 = .ok () := by
+  obtain ⟨_, ⟨b, hb, _⟩, _⟩ := cleanUpLevel_range k rIdx p4 4 [] p4 s rs re (by omega) hinv rfl rfl (fun _ h => by cases h)
+    (fun _ _ h => absurd rfl h) (rangeIn_top hs he hle)
+  unfold cleanUpRange
+  split
+  · rename_i heq; rw [heq] at hb; cases hb
+  · rfl
+
+/-- **Only tables overlapping the range are freed, and tables that do not overlap it are
+untouched**: every deallocated frame was the table at a path whose span intersects the range; every
+modified word lies in the level-4 table or in a table whose span intersects the range. -/
+theorem clean_up_touches_only_overlapping_tables (k : Kind) (rIdx : Nat) (s : St) (p4 : Word) (rs re : Nat)
+    (hinv : Inv s.mem p4) (hs : PageAddr rs) (he : PageAddr re) (hle : rs ≤ re) :
+    ∃ seg, (cleanUpRange k rIdx s p4 rs re).2.events = s.events ++ seg ∧
+      (∀ g ∈ deallocsIn seg, ∃ q, q.length ≤ 3 ∧ IdxOK q ∧ tblAt s.mem p4 q = some g ∧ Overlaps q (pn rs) (pn re)) ∧
+      (∀ f j, (cleanUpRange k rIdx s p4 rs re).2.mem f j ≠ s.mem f j →
+        ∃ q, q.length ≤ 2 ∧ IdxOK q ∧ tblAt s.mem p4 q = some f ∧ (q = [] ∨ Overlaps q (pn rs) (pn re))) := by
+  obtain ⟨⟨seg, hc, ho⟩, _, _⟩ := cleanUpLevel_range k rIdx p4 4 [] p4 s rs re (by omega) hinv rfl rfl (fun _ h => by cases h)
+    (fun _ _ h => absurd rfl h) (rangeIn_top hs he hle)
+  have hst : (cleanUpRange k rIdx s p4 rs re).2 = (cleanUpLevel k rIdx 4 s p4 rs re).2 := by
+    unfold cleanUpRange; split <;> (rename_i heq; rw [heq])
+  rw [hst]
+  exact ⟨seg, hc.events, ho.freedOv, ho.memOv⟩
+
+/-- **No empty table is left inside the range**: afterwards every linked table of level 1..3 whose
+span intersects the range — in particular every one lying wholly inside it — holds at least one
+entry (recursive mapper: outside the recursive slot). -/
+theorem clean_up_leaves_no_empty_table (k : Kind) (rIdx : Nat) (s : St) (p4 : Word) (rs re : Nat)
+    (hinv : Inv s.mem p4) (hs : PageAddr rs) (he : PageAddr re) (hle : rs ≤ re)
+    (q : List Nat) (g : Word) (hq1 : 1 ≤ q.length) (hq : q.length ≤ 3) (hqi : IdxOK q)
+    (hov : Overlaps q (pn rs) (pn re)) (hns : k.recursive = true → q.head? ≠ some rIdx)
+    (hg : tblAt (cleanUpRange k rIdx s p4 rs re).2.mem p4 q = some g) :
+    ∃ j, j < 512 ∧ (cleanUpRange k rIdx s p4 rs re).2.mem g j ≠ 0#64 := by
+  obtain ⟨_, _, hcomp⟩ := cleanUpLevel_range k rIdx p4 4 [] p4 s rs re (by omega) hinv rfl rfl (fun _ h => by cases h)
+    (fun _ _ h => absurd rfl h) (rangeIn_top hs he hle)
+  have hst : (cleanUpRange k rIdx s p4 rs re).2 = (cleanUpLevel k rIdx 4 s p4 rs re).2 := by
+    unfold cleanUpRange; split <;> (rename_i heq; rw [heq])
+  rw [hst] at hg ⊢
+  refine hcomp q g ⟨List.nil_prefix, by simp; omega⟩ hq hqi hov ?_ hg
+  intro x hx
+  unfold recSkipOf at hx
+  split at hx
+  · rename_i hk; simp only [Option.some.injEq] at hx; rw [← hx]; exact hns hk
+  · cases hx
+
+/-- "wholly inside" implies "overlaps". -/
+theorem inside_overlaps (q : List Nat) (lo hi : Nat) (h : lo ≤ spanLo q ∧ spanHi q ≤ hi) : Overlaps q lo hi :=
+  ⟨Nat.le_trans (spanLo_le_spanHi q) h.2, Nat.le_trans h.1 (spanLo_le_spanHi q)⟩
+
+/-- **Repeating the clean-up deallocates nothing**: a second run over the same range on the state
+the first run left behind only reads — no write, no deallocation, memory unchanged. -/
+theorem clean_up_twice_frees_nothing (k : Kind) (rIdx : Nat) (s : St) (p4 : Word) (rs re : Nat)
+    (hinv : Inv s.mem p4) (hs : PageAddr rs) (he : PageAddr re) (hle : rs ≤ re) :
+    let s1 := (cleanUpRange k rIdx s p4 rs re).2
+    ReadsOnly s1 (cleanUpRange k rIdx s1 p4 rs re).2 := by
+  intro s1
+  obtain ⟨⟨seg, hc, _⟩, _, hcomp⟩ := cleanUpLevel_range k rIdx p4 4 [] p4 s rs re (by omega) hinv rfl rfl (fun _ h => by cases h)
+    (fun _ _ h => absurd rfl h) (rangeIn_top hs he hle)
+  have hst : (cleanUpRange k rIdx s p4 rs re).2 = (cleanUpLevel k rIdx 4 s p4 rs re).2 := by
+    unfold cleanUpRange; split <;> (rename_i heq; rw [heq])
+  have hs1 : s1 = (cleanUpLevel k rIdx 4 s p4 rs re).2 := hst
+  have hinv1 : Inv s1.mem p4 := by rw [hs1]; exact hc.inv
+  have hstable : Stable p4 (recSkipOf k rIdx) [] (pn rs) (pn re) s1.mem := by
+    rw [hs1]; exact hcomp
+  have := cleanUpLevel_stable k rIdx p4 4 [] p4 s1 rs re (by omega) hinv1 rfl rfl (fun _ h => by cases h)
+    (fun _ _ h => absurd rfl h) (rangeIn_top hs he hle) hstable
+  have hst2 : (cleanUpRange k rIdx s1 p4 rs re).2 = (cleanUpLevel k rIdx 4 s1 p4 rs re).2 := by
+    unfold cleanUpRange; split <;> (rename_i heq; rw [heq])
+  rw [hst2]; exact this
+
+/-- An empty range (`start > end`) does nothing at all. -/
+theorem clean_up_empty_range (k : Kind) (rIdx : Nat) (s : St) (p4 : Word) (rs re : Nat) (h : rs > re) :
+    cleanUpRange k rIdx s p4 rs re = (.ok (), s) := by
+  unfold cleanUpRange cleanUpLevel
+  simp [h]
+
+/-- The whole-address-space clean-up is within the quantifier of the range theorems. -/
+example : PageAddr 0 ∧ PageAddr 0xfffffffffffff000 ∧ (0 : Nat) ≤ 0xfffffffffffff000 := by
+  refine ⟨?_, ?_, by omega⟩ <;> (unfold PageAddr canon; omega)
+
+/-! ### Non-vacuity: a reachable hierarchy with empty tables, and what clean-up does to it
+
+Map one 4 KiB page into the empty hierarchy (three tables are allocated), unmap it again: three
+empty tables are left behind. -/
+
+def st1 : St := (mapTo ⟨false⟩ C09.demo3 0x1000#64 [0, 0, 0] 5 false 0x5000#64 1#64 3#64).2
+def st2 : St := (unmap st1 0x1000#64 [0, 0, 0] 5 false 4096).2
+
+-- the state satisfies the invariant the theorems assume (it is reached through the API)
+set_option maxRecDepth 100000 in
+example : Inv st2.mem 0x1000#64 := by
+  have h0 : Inv C09.demo3.mem 0x1000#64 := C01.init_inv _ _ (fun _ => rfl)
+  have hidx : IdxOK [0, 0, 0] := by intro j h; simp at h; omega
+  have hpf : ParentFlagsOK 3#64 := ⟨by decide, by decide, by decide⟩
+  have hlf : (if false = true then C01.LeafFlagsHuge 1#64 else C01.LeafFlags4K 1#64) := by
+    simp only [Bool.false_eq_true, if_false]; exact ⟨by decide, by decide⟩
+  have hfr : C01.FrameOK 4096 0x5000#64 := by unfold C01.FrameOK; simp only [if_true]; decide
+  have hm := C01.map_to_spec ⟨false⟩ C09.demo3 0x1000#64 [0, 0, 0] 5 false 4096 0x5000#64 1#64 3#64
+    (.s4k 0 0 0) h0 hidx (by omega) hpf hlf hfr C09.demo3_allocsOK
+  have hres : (mapTo ⟨false⟩ C09.demo3 0x1000#64 [0, 0, 0] 5 false 0x5000#64 1#64 3#64) = (.ok (.ok ()), st1) := by
+    have h1 : (match (mapTo ⟨false⟩ C09.demo3 0x1000#64 [0, 0, 0] 5 false 0x5000#64 1#64 3#64).1 with
+        | .ok (.ok ()) => true | _ => false) = true := by
+      set_option maxRecDepth 100000 in decide +kernel
+    cases hmt : mapTo ⟨false⟩ C09.demo3 0x1000#64 [0, 0, 0] 5 false 0x5000#64 1#64 3#64 with
+    | mk res s' =>
+      have hs' : s' = st1 := by unfold st1; rw [hmt]
+      rw [hmt] at h1
+      cases res with
+      | panic => simp at h1
+      | ok e => cases e with
+        | error _ => simp at h1
+        | ok u => cases u; rw [hs']
+  rw [hres] at hm
+  have h1 : Inv st1.mem 0x1000#64 := hm.1
+  have hu : ∃ fr, (unmap st1 0x1000#64 [0, 0, 0] 5 false 4096).1 = .ok fr := by
+    have hb : (match (unmap st1 0x1000#64 [0, 0, 0] 5 false 4096).1 with | .ok _ => true | .error _ => false) = true := by
+      decide +kernel
+    cases hx : (unmap st1 0x1000#64 [0, 0, 0] 5 false 4096).1 with
+    | ok fr => exact ⟨fr, rfl⟩
+    | error e => rw [hx] at hb; simp at hb
+  obtain ⟨fr, hu⟩ := hu
+  exact (C01.unmap_ok st1 0x1000#64 [0, 0, 0] 5 false 4096 (.s4k 0 0 0) h1 hidx fr hu).1
+
+/-- The same hierarchy written out (level-4 table `0x1000` → `0x2000` → `0x3000` → `0x4000`, all
+other words zero), for fast evaluation. -/
+def m3 : PMem := fun f i =>
+  if f = 0x1000#64 ∧ i = 0 then 0x2003#64
+  else if f = 0x2000#64 ∧ i = 0 then 0x3003#64
+  else if f = 0x3000#64 ∧ i = 0 then 0x4003#64
+  else 0#64
+def st3 : St := { mem := m3, allocs := [], log := [] }
+
+/-- clean-up of the page's own range: the three empty tables are freed bottom-up, each right after
+its parent entry is zeroed; a second run frees nothing -/
+example :
+    let r := cleanUpRange ⟨false⟩ 0 st3 0x1000#64 0 0
+    deallocsIn r.2.events = [0x4000#64, 0x3000#64, 0x2000#64] ∧
+    r.2.events.filter (fun ev => match ev with | .wr _ _ _ => true | _ => false) =
+      [.wr 0x3000#64 0 0#64, .wr 0x2000#64 0 0#64, .wr 0x1000#64 0 0#64] ∧
+    deallocsIn ((cleanUpRange ⟨false⟩ 0 r.2 0x1000#64 0 0).2.events.drop r.2.events.length) = [] := by
+  set_option maxRecDepth 1000000 in decide +kernel
+
+/-- a range that only covers the neighbouring 2 MiB block frees nothing: the level-1 table of page 0
+does not overlap it, and the level-2 table still holds an entry afterwards -/
+example : deallocsIn (cleanUpRange ⟨false⟩ 0 st3 0x1000#64 0x200000 0x3ff000).2.events = [] := by
+  set_option maxRecDepth 1000000 in decide +kernel
+
+/-- with the recursive mapper and recursive index 0 the same hierarchy is left alone -/
+example : deallocsIn (cleanUpRange ⟨true⟩ 0 st3 0x1000#64 0 0xfffffffffffff000).2.events = [] := by
+  set_option maxRecDepth 1000000 in decide +kernel
 
 end X86.C10
